@@ -4,7 +4,7 @@
 
     Model: LV.Model.FcBatch (FCDeque::fc_apply and FCDeque::fc_process/collide as pure functions copied from
     cds/container/fcdeque.h) executed by the kernel model LV.Model.FcKernel (step-checked against the real kernel
-    by C23).  Only statements here; proofs in LV.Proofs.FcBatchProofs, FcKernelProofs, FcContainers. *)
+    by C23).  Only statements here; proofs in LV.Proofs.FcBatchProofs, FcKernelProofs, FcKernelShape, FcContainers. *)
 From Coq Require Import ZArith List String Bool.
 From LV Require Import Base.Conc Base.Events Base.Lin Spec.Specs Proofs.LinProofs Model.FcKernel Model.FcBatch
                        Proofs.FcBatchProofs Proofs.FcKernelProofs Proofs.FcContainers.
@@ -40,20 +40,39 @@ Print Assumptions C10_fcdeque_cross_end_only_if_empty.
     Client programs: requests with the FCDeque request words (push_front 2/3, push_back 4/5, pop_front 6,
     pop_back 7) through kernel::combine (elimination off) or kernel::batch_combine (elimination on), and thread
     exits; any number of threads; any compact-factor mask and combine pass count. *)
-Definition C10_fcdeque_linearizable_statement : Prop :=
+Theorem C10_fcdeque_linearizable :
+  forall (fuel mask npass : nat) (ths : list (list cop)) c,
+    ops_ok dq_okop ths -> passes_ok npass ths -> Conc.reach (dq_init_cfg true fuel mask npass ths) c ->
+    linearizable Deque (fc_history Deque res_dec dq_dec (Conc.trace c)).
+Proof. exact fcdeque_linearizable. Qed.
+Print Assumptions C10_fcdeque_linearizable.
+
+(** [passes_ok npass ths]: every request is a batch_combine (elimination on) or the combine pass count is >= 1
+    (with 0 passes a combiner never serves itself; see Properties_C23.C23_pass_count_zero_loses).  In
+    particular: *)
+Corollary C10_fcdeque_linearizable_npass :
   forall (fuel mask npass : nat) (ths : list (list cop)) c,
     1 <= npass -> ops_ok dq_okop ths -> Conc.reach (dq_init_cfg true fuel mask npass ths) c ->
     linearizable Deque (fc_history Deque res_dec dq_dec (Conc.trace c)).
+Proof. intros fuel mask npass ths c Hn Hok Hr. exact (fcdeque_linearizable Hok (passes_ok_pos ths Hn) Hr). Qed.
 
-(** Proved for every trace without the model event "lost" (see Properties_C23: the only missing piece is that a
-    combiner's own record is reached by its own combining pass). *)
-Theorem C10_fcdeque_linearizable_partial :
+(** stronger than linearizability: the linearization points are the executions by the combiner (the trace
+    annotated with them is a valid LP trace) *)
+Theorem C10_fcdeque_lp_valid :
+  forall (fuel mask npass : nat) (ths : list (list cop)) c,
+    ops_ok dq_okop ths -> passes_ok npass ths -> Conc.reach (dq_init_cfg true fuel mask npass ths) c ->
+    lp_valid Deque (annot Deque res_dec dq_dec (Conc.trace c)).
+Proof. exact fcdeque_lp_valid. Qed.
+
+(** Part A alone, for both versions of the kernel's compact_list ([chk] arbitrary): every trace without the
+    model event "lost" (a record released unanswered). *)
+Theorem C10_fcdeque_linearizable_if_not_lost :
   forall (chk : bool) (fuel mask npass : nat) (ths : list (list cop)) c,
     ops_ok dq_okop ths -> Conc.reach (dq_init_cfg chk fuel mask npass ths) c ->
     has_lost (Conc.trace c) = false ->
     linearizable Deque (fc_history Deque res_dec dq_dec (Conc.trace c)).
 Proof. exact fcdeque_linearizable_partA. Qed.
-Print Assumptions C10_fcdeque_linearizable_partial.
+Print Assumptions C10_fcdeque_linearizable_if_not_lost.
 
 (** non-vacuity: three threads, elimination on (batch_combine): thread 0 becomes combiner and is parked, threads 1
     and 2 publish push_front 7 / pop_back; the deque is empty so fc_process collides them across the ends; the run
